@@ -1283,7 +1283,9 @@ void ppDiv(word q[], word r[], const word a[], size_t n, const word b[],
 	_DIV_PRE_S4(w1, divisor[m - 1]);
 	_MUL_PRE_S4(w2, divisor[m - 1]);
 	// цикл по разрядам делимого
-	for (i = n; i >= m; --i)
+	// [при неявном старшем слове divisor (shift == 0) слово divident[n] == 0
+	//  не дает вклада, а q[n - m] лежит за пределами [n - m + 1]q]
+	for (i = shift ? n : n - 1; i >= m; --i)
 	{
 		// q[i - m] <- divident[i] \div divisor[m - 1]
 		dividentHi = divident[i];
